@@ -23,6 +23,8 @@ is a shape the extractor does not understand (fail-closed, less serious, still w
     else-after-exit / no-else-after-exit   `if c: return ..; REST`  <->  `if c: return ..  else: REST`
     return-ifexp   return a if c else b  ->  if c: return a; return b
     self-aug-expand  self.n -= 1     ->  self.n = self.n - 1
+    extract-alias  .. x.costs[a] .. x.costs[b] ..  ->  alias = x.costs; .. alias[a] .. alias[b] ..
+    inline-alias   c = x.costs; .. c[k] ..  ->  .. x.costs[k] ..   (top-level local bound once to an attribute chain of a parameter)
 
     /venv/bin/python tools/equiv_probe.py [--only flip-eq,...] [--module utils/trees.py] [--sites]
 
@@ -373,6 +375,109 @@ class SelfAugExpand(Rewrite):
         return node
 
 
+
+def _pure_chain(e):
+    """a name, or attribute / constant-subscript chain on a name: reading it twice gives the same object"""
+    while isinstance(e, (ast.Attribute, ast.Subscript)):
+        if isinstance(e, ast.Subscript) and not isinstance(e.slice, (ast.Constant, ast.Name)):
+            return False
+        e = e.value
+    return isinstance(e, ast.Name)
+
+
+class InlineAlias(Rewrite):
+    """costs = rec_input.costs; ... costs[k] ...  ->  ... rec_input.costs[k] ...   (a local bound once to an attribute
+    chain whose root names are never rebound in the function; every use is replaced, the assignment dropped)"""
+
+    def visit_FunctionDef(self, node):
+        node = self.generic_visit(node)
+        stores = {}
+        for n in ast.walk(node):
+            if isinstance(n, ast.Name) and isinstance(n.ctx, (ast.Store, ast.Del)):
+                stores[n.id] = stores.get(n.id, 0) + 1
+            elif isinstance(n, ast.arg):
+                stores[n.arg] = stores.get(n.arg, 0) + 1
+        nested = {x.id for n in ast.walk(node) if n is not node and isinstance(n, (ast.FunctionDef, ast.Lambda)) for x in ast.walk(n) if isinstance(x, ast.Name)}
+        for st in list(node.body):
+            if (
+                isinstance(st, ast.Assign) and len(st.targets) == 1 and isinstance(st.targets[0], ast.Name)
+                and isinstance(st.value, ast.Attribute) and _pure_chain(st.value)
+            ):
+                name = st.targets[0].id
+                roots = {x.id for x in ast.walk(st.value) if isinstance(x, ast.Name)}
+                params = {a.arg for a in node.args.args}
+                if stores.get(name) == 1 and name not in nested and all((stores.get(r, 0) == 1 and r in params) or r == "self" for r in roots) and self.hit():
+                    value = st.value
+
+                    class Sub(ast.NodeTransformer):
+                        def visit_Name(self, n):
+                            if n.id == name and isinstance(n.ctx, ast.Load):
+                                return copy.deepcopy(value)
+                            return n
+
+                    node.body.remove(st)
+                    node.body = [Sub().visit(x) for x in node.body]
+        return node
+
+    def visit_Lambda(self, node):
+        return node
+
+
+
+class ExtractAlias(Rewrite):
+    """.. x.costs[a] .. x.costs[b] ..  ->  alias = x.costs; .. alias[a] .. alias[b] ..   (the most used attribute chain
+    of a parameter that is read at least twice and never written through, bound at the top of the function)"""
+
+    def visit_FunctionDef(self, node):
+        node = self.generic_visit(node)
+        params = {a.arg for a in node.args.args} - {"self", "cls"}
+        rebound = {n.id for n in ast.walk(node) if isinstance(n, ast.Name) and isinstance(n.ctx, (ast.Store, ast.Del))}
+        nested = [n for n in ast.walk(node) if n is not node and isinstance(n, (ast.FunctionDef, ast.Lambda, ast.GeneratorExp, ast.ListComp, ast.SetComp, ast.DictComp))]
+        in_nested = {id(x) for n in nested for x in ast.walk(n)}
+        counts = {}
+        stored = set()
+        for n in ast.walk(node):
+            if isinstance(n, ast.Attribute) and isinstance(n.value, ast.Name) and n.value.id in params - rebound:
+                key = f"{n.value.id}.{n.attr}"
+                if isinstance(n.ctx, ast.Load) and id(n) not in in_nested:
+                    counts[key] = counts.get(key, 0) + 1
+                elif not isinstance(n.ctx, ast.Load):
+                    stored.add(key)
+        # chains that are called (methods) are not aliased
+        called = {f"{c.func.value.id}.{c.func.attr}" for c in ast.walk(node) if isinstance(c, ast.Call) and isinstance(c.func, ast.Attribute) and isinstance(c.func.value, ast.Name)}
+        cands = sorted(((v, k) for k, v in counts.items() if v >= 2 and k not in stored and k not in called), reverse=True)
+        if not cands or not self.hit():
+            return node
+        for _count, key in cands:
+            node = self._alias(node, key)
+        return node
+
+    def _alias(self, node, key):
+        root, attr = key.split(".")
+        alias = f"alias_eq_{root}_{attr}"
+
+        class Sub(ast.NodeTransformer):
+            def visit_Attribute(self, n):
+                n = self.generic_visit(n)
+                if isinstance(n.value, ast.Name) and n.value.id == root and n.attr == attr and isinstance(n.ctx, ast.Load):
+                    return ast.Name(id=alias, ctx=ast.Load())
+                return n
+
+            def visit_FunctionDef(self, n):
+                return n
+
+            visit_Lambda = visit_GeneratorExp = visit_ListComp = visit_SetComp = visit_DictComp = visit_FunctionDef
+
+        body = [Sub().visit(st) for st in node.body]
+        bind = ast.Assign(targets=[ast.Name(id=alias, ctx=ast.Store())], value=ast.Attribute(value=ast.Name(id=root, ctx=ast.Load()), attr=attr, ctx=ast.Load()))
+        start = 1 if body and isinstance(body[0], ast.Expr) and isinstance(body[0].value, ast.Constant) else 0
+        node.body = body[:start] + [bind] + body[start:]
+        return node
+
+    def visit_Lambda(self, node):
+        return node
+
+
 def package_signatures(prog):
     seen, dup = {}, set()
     for mod in prog.modules.values():
@@ -410,6 +515,8 @@ REWRITES = {
     "no-else-after-exit": lambda sig, only: NoElseAfterExit(only),
     "return-ifexp": lambda sig, only: ReturnIfExp(only),
     "self-aug-expand": lambda sig, only: SelfAugExpand(only),
+    "inline-alias": lambda sig, only: InlineAlias(only),
+    "extract-alias": lambda sig, only: ExtractAlias(only),
 }
 
 
